@@ -158,7 +158,8 @@ impl Builder {
             }
             Term::PackageBuilder(v) => {
                 let cs = self.children(v);
-                let mut pb = aml::PackageBuilder::new();
+                // both ways of obtaining an empty builder are exercised
+                let mut pb = if cs.len() % 2 == 0 { aml::PackageBuilder::default() } else { aml::PackageBuilder::new() };
                 for c in cs {
                     pb.add_element(c);
                 }
